@@ -87,12 +87,14 @@ PROPS = {
                            {"test": "^TestC15Burst$", "shards": 3, "checks": 25, "timeout": 600},
                            {"test": "^TestC15Unwritable$", "shards": 1, "checks": 60, "timeout": 600},
                            {"test": "^TestC15LeadingNewline$", "shards": 1, "checks": 30, "timeout": 300},
-                           {"test": "^TestC15OperatorFile$", "shards": 2, "checks": 30, "timeout": 600}]},
+                           {"test": "^TestC15OperatorFile$", "shards": 2, "checks": 30, "timeout": 600},
+                           {"test": "^TestC15ManyAccounts$", "shards": 1, "checks": 3, "timeout": 600}]},
         "thorough": {"runs": [{"test": "^TestC15$", "shards": 12, "checks": 1500, "timeout": 3400},
                               {"test": "^TestC15Burst$", "shards": 3, "checks": 1500, "timeout": 3400},
                               {"test": "^TestC15Unwritable$", "shards": 1, "checks": 3000, "timeout": 3400},
                               {"test": "^TestC15LeadingNewline$", "shards": 1, "checks": 300, "timeout": 600},
-                              {"test": "^TestC15OperatorFile$", "shards": 4, "checks": 1500, "timeout": 3400}]},
+                              {"test": "^TestC15OperatorFile$", "shards": 4, "checks": 1500, "timeout": 3400},
+                              {"test": "^TestC15ManyAccounts$", "shards": 2, "checks": 20, "timeout": 1800}]},
     },
     "C05": {
         "title": "Every privileged effect requires the governing privilege",
@@ -490,7 +492,7 @@ _LATER = {
     "C12": "restarts (chats are gone afterwards), invitations by non-members, the refuse-private-chat preference (decline notice names the decliner, never addressed to chat 0), names containing %, unknown chat ids other than 0",
     "C13": "set-user edits of an account whose user is connected (disconnect / same / other name), followed by the same presence comparison",
     "C14": "latecomers who log in while the plan runs (agreements of several sizes), a 300-article news listing, requests naming unknown chats sent by a connection of their own; TestC14Stalled: the stalled clients start reading again after 1 s .. 10 min of fake time and must receive whole transactions only, every queued broadcast at most once; disconnect requests naming user ids nobody has (with and without ban option), sent by the stranger connection; request ids 0, 0xFFFFFFFF and 0x80000000 (each at most once per client)",
-    "C15": "passwords of 73 / 100 / 255 bytes (bcrypt's limit is 72), names of 300 / 500 / 2000 bytes, new-user over a file that another login's record occupies; no two accounts may share a stored password hash (also the password-less ones); the administrator edits the name of the account it is logged in with and asks for it: get-user, list-users and the file show the new name; TestC15OperatorFile: the account lives in a file that is not named after its login (six file-name patterns sorting before and after <login>.yaml); 1-4 operations out of edit / password change / rename / delete / restart, and after each the listing, a fresh manager and login attempts with every password must agree with the model",
+    "C15": "passwords of 73 / 100 / 255 bytes (bcrypt's limit is 72), names of 300 / 500 / 2000 bytes, new-user over a file that another login's record occupies; no two accounts may share a stored password hash (also the password-less ones); the administrator edits the name of the account it is logged in with and asks for it: get-user, list-users and the file show the new name; TestC15OperatorFile: the account lives in a file that is not named after its login (six file-name patterns sorting before and after <login>.yaml); 1-4 operations out of edit / password change / rename / delete / restart, and after each the listing, a fresh manager and login attempts with every password must agree with the model; TestC15ManyAccounts: 254-513 accounts exist as files at start-up (plus 0-3 made through the protocol): the listing shows each once, a sample logs in; TestC15OperatorFile also gives the login of a deleted account to a new one",
     "C16": "TestC16Wire: creation of shadow logins (./u, u/., U) next to an existing one, set-user spelled in another case, and the account listing fetched before and after an edit must show the edit; TestC16Authz also runs every cell with each of the 24 bits that name no privilege alone (delivered by set-user): nothing may be granted; TestC05 keeps random undefined bits on the set-user path",
     "C17": "a protected account; kicks aimed at a user who is leaving at that instant; reloads of the ban file racing a ban (the in-memory answer is compared too); TestC17Net (child process, production accept loop): three clients from three loopback addresses, one is kicked with a ban: only its address is refused afterwards, the others reconnect; the ban file cannot be rewritten for a while (its temporary name is taken by a folder): a disconnect-with-ban that is acknowledged must be enforced by the running server; restarts and reloads go by the file; TestC17Main: the repository's main program as a child process with a configuration directory of the operator's choice (created by -init): a guest is disconnected with a temporary or permanent ban; the address is refused and another admitted, before and after a restart (SIGTERM or SIGKILL, with or without -init), and the ban file of that directory lists the address",
     "C18": "stale paths whose last component is missing; the path field absent / empty / zero-count / truncated; delete-item followed by listings of the former sub-paths; posts after deletions keep their parent; TestC18DeepPath: bundles nested 1-40 deep with names of 1-255 bytes (encoded path up to ~5.3 KiB), a category with an article and a reply at the bottom, then nothing / reload / restart: every level lists exactly its child, the articles are listed and fetched, deleting the innermost bundle removes exactly it (non-trivial = encoded path longer than 512 bytes); the operator adds a category to the news file and reloads, a client deletes it: the file a restart would load does not hold it any more",
